@@ -83,6 +83,12 @@ func audClaim(kind string) interface{} {
 		return []string{"https://somewhere.else/token", TokenURL}
 	case "list_without":
 		return []string{"https://somewhere.else/token", "https://third.example/"}
+	case "child_path":
+		return TokenURL + "/tenants/other"
+	case "with_query":
+		return TokenURL + "?tenant=other"
+	case "list_child_path":
+		return []string{"https://somewhere.else/token", TokenURL + "/"}
 	}
 	return nil
 }
